@@ -146,7 +146,67 @@ def judge(W, run, trace):
                         viol.append({"oracle": "O7", "role": "other", "group": "tables",
                                      "kind": "created_by_failed_op", "event": i,
                                      "expected": sorted(before["props"]), "observed": sorted(after["props"])})
+    trace["fired"] = fired_c10(run, trace)
     return viol
+
+
+def fired_c10(run, trace):
+    """C10 fault kinds that actually fired, from observed outcomes and the real abstract states."""
+    from .runner import pending_groups
+    out = {}
+
+    def bump(k):
+        out[k] = out.get(k, 0) + 1
+    prev = dict(trace.get("init_abstract", {}))
+    failed = set()
+    mutated = set()
+    dumped = {}
+    loaded = set()
+    for i, (nid, ev) in enumerate(run["events"]):
+        o = trace["outcomes"][i]
+        err = isinstance(o, list) and o[:1] == ["E"]
+        k = ev[0]
+        before = prev.get(nid)
+        if k == "init" and ev[1] != "public":
+            key = (nid, ev[1], ev[2])
+            if err:
+                bump("fail_op_missing_prerequisite")
+                failed.add(key)
+            else:
+                if key in failed:
+                    bump("retry_after_failed_init")
+                    failed.discard(key)
+                if before is not None and ev[2] in pending_groups(before):
+                    bump("private_init_while_public_pending")
+        elif k == "newtable":
+            if err:
+                bump("duplicate_table_name")
+            elif any(m[0] == nid and m[1] != ev[1] for m in mutated):
+                bump("second_table_after_first_modified")
+        elif k in ("mutate", "mutate_walk") and not err and o != "skip":
+            bump("mutation" if k == "mutate" else "mutation_walk")
+            mutated.add((nid, ev[1]))
+            if before is not None and k == "mutate":
+                from .model import MUTATE_GROUP
+                if MUTATE_GROUP.get(ev[3]) in pending_groups(before):
+                    bump("private_assignment_while_public_pending")
+        elif k in ("dump", "dump_formula") and not err:
+            dumped[ev[1]] = nid
+        elif k == "load":
+            if ev[1] in dumped:
+                if dumped[ev[1]] != nid:
+                    bump("deliver_cross_node")
+                if (nid, ev[1]) in loaded:
+                    bump("deliver_duplicate")
+                loaded.add((nid, ev[1]))
+                if err:
+                    bump("unpickle_raised")
+        elif k == "restart":
+            bump("restart")
+        ab = trace["abstract"][i]
+        if ab is not None:
+            prev[nid] = ab
+    return out
 
 
 def fkind(ev):
